@@ -123,10 +123,22 @@ def k_c20(ctx):
             if held > 0:
                 ls = ls + [Line(last + datetime.timedelta(days=rng.choice([200, 500, 800])), t, rng.choice(["CAPRETURN", "ACCUMULATION"]), gen.dec_str(held), rng.choice(["5", "12.5"]), "GBP", None)]
             ledgers.append((ls, ledger.render(ls)))
+        # ledgers that also hold disposals in tax years the exemption table does not cover: a report of a covered year must still be
+        # answered, equal the CLI's and have each of its disposals explained
+        special = []
+        for i in range(4):
+            ls = gen.gen_ledger(rng, events=0, splits=0, uncovered=0, dividends=0.05, nsec=rng.choice([1, 2]))
+            oy = rng.choice([2009, 2011, 2012, 2027, 2029])
+            ls = ls + [Line(datetime.date(oy, 5, 3), "OLDCO", "BUY", "10", "1", "GBP", None), Line(datetime.date(oy, 9, 1), rng.choice(["OLDCO", ls[0].tick]) if oy > 2026 else "OLDCO", "SELL", "1", "2", "GBP", None)]
+            ledgers.append((ls, ledger.render(ls))); special.append((ls, ledger.render(ls)))
         answers = {}       # canonical request -> set of canonical answers seen (statelessness)
         nsess = ctx.n(24, 1200)
         for si in range(nsess):
             reqs = gen_requests(rng, rng.randint(5, 40 if ctx.thorough() else 25), ledgers)
+            if si < len(special):
+                sl, sd = special[si]
+                for y in sorted({K.tax_year(l.date) for l in sl if 2014 <= K.tax_year(l.date) <= 2025})[:3]:
+                    reqs.insert(rng.randint(0, len(reqs)), ("calculate", ("tools/call", {"name": "calculate_report", "arguments": {"transactions": sd, "year": y}})))
             pipelined = (si % 2 == 1); id_style = rng.choice(["int", "str"])
             res = run_session(os.path.join(root, "s%d" % si), reqs, pipelined, id_style)
             ctx.evaluations += len(reqs); ctx.traces += 1
@@ -167,7 +179,11 @@ def k_c20(ctx):
         ctx.count("distinct_requests", len(answers)); ctx.count("requests_seen_more_than_once", sum(1 for s in answers.values() if sum(len(w) for w in s.values()) > 1))
         # ---- equals the CLI; explain covers every listed disposal
         ncli = 0
-        for key, seen in answers.items():
+        sp = {d for _, d in special}
+        def first(kv):
+            try: a = json.loads(kv[0])[1]["arguments"]; return 0 if a.get("transactions") in sp and isinstance(a.get("year"), int) and 2014 <= a["year"] <= 2025 else 1
+            except Exception: return 1
+        for key, seen in sorted(answers.items(), key=first):
             method, params = json.loads(key)
             if method != "tools/call" or params.get("name") != "calculate_report" or not isinstance(params["arguments"].get("transactions"), str): continue
             if params["arguments"]["transactions"].lstrip().startswith("["): continue
